@@ -13,21 +13,25 @@ sys.path.insert(0, os.path.dirname(os.path.dirname(os.path.abspath(__file__))))
 from translate import kernels  # noqa: E402
 
 CLAIM = {
-    "text": "Every numpy/numba kernel pair (liquid and gas momentum kernels, thermal kernel, friction factor, mean "
-            "pressure, derived values, gas result post-processing) is translated from the current source to a real "
-            "function and proved equal output by output for ALL inputs, mask thresholds included; where the twins "
-            "differ the difference is stated exactly (gas df_dm at |m|<=1e-8, thermal to-node terms at 0<|m|<=1e-10, "
-            "gas norm factors of direction-switched branches) with a refuting witness. The matrix-update path is proved "
-            "equal to fresh assembly for any data and any stored permutation when no two triplets share a position, "
-            "and refuted when they do; the grouped-sum paths are proved equal (model of C06).",
+    "text": "PROVED (21 theorems): every numpy/numba kernel pair - liquid and gas momentum kernels, steady-state thermal kernel, "
+            "friction factor, mean pressure, derived values, gas result post-processing - is regenerated from the current source "
+            "as a real function and proved equal output by output for ALL inputs, mask thresholds included; the two places where "
+            "the twins differ are stated exactly with a refuting witness (gas df_dm at |m|<=1e-8; thermal to-node terms at "
+            "0<|m|<=1e-10). The graph part of the thermal twins (nodes_flow, infeed: set-difference vs flag formulation) is proved "
+            "equal for every branch list on a hand model that is compared inside Coq with both real kernels. The matrix-update "
+            "path is proved equal to fresh assembly for any triplet list, data and stored permutation (the pre-33b82f8 path "
+            "refuted for duplicate positions); the grouped-sum paths are proved equal (model of C06). "
+            "VALIDATED, not proved: the translator (bit-exact PrimFloat shadow of 9 kernels evaluated in Coq against numpy / "
+            "numba). MONITORED only: float behaviour of the twins (<= 4 ulp, NaN rows), end-to-end agreement of pipeflow under "
+            "use_numba / only_update_hydraulic_matrix / reuse_internal_data over load changes.",
     "note": "Theorems over R use the standard-library real axioms (ClassicalDedekindReals.sig_forall_dec, sig_not_dec, "
-            "FunctionalExtensionality.functional_extensionality_dep); PropsAsm/PropsSbg are axiom-free (any commutative "
-            "ring). NaN is outside the real model (np.isnan = false): NaN rows are covered by the float differential "
-            "only. numba code generation is trusted (twins are compared from their Python source). The thermal kernel is "
-            "the steady-state branch; its graph part (nodes_flow, infeed) is a boolean input here and compared by the "
-            "float differential.",
-    "technique": "Coq proofs (ring/field/lra) over kernels regenerated from source + generic-ring model of the update "
-                 "path + float and API differentials as monitors",
+            "FunctionalExtensionality.functional_extensionality_dep); PropsAsm / PropsSbg / PropsGraph are closed under the "
+            "global context. NaN is outside the real model (np.isnan = false). numba code generation, spsolve and the CSR "
+            "semantics (duplicates are summed) are trusted. The update-path model is hand-written and tied by the API "
+            "differential only. colebrook_np / colebrook_numba are dead code (never called) and not covered. The thermal kernel "
+            "is the steady-state branch only.",
+    "technique": "Coq proofs (ring/field/lra) over kernels regenerated from source + hand models with exact in-Coq correspondence "
+                 "+ generic-ring model of the update path + float shadow, float and API differentials",
     "design": "DESIGN.md 4/C07 + design_notes/C07.md",
 }
 GEN_FILES = ["KHydIncompNp", "KHydIncompNb", "KHydCompNp", "KHydCompNb", "KThermNp", "KThermNb", "KPmNp", "KPmNb",
@@ -41,7 +45,9 @@ def run(ctx):
                          "row kind); API differential: generated nets (water / gas / heat loop, plus pressure controllers "
                          "and gas nets with reverse-declared pipes in sequential mode) x 4 engine/update variants x 3 load "
                          "steps; distinct = canonical spec hash; non-trivial = the reference run converged")
-    proved = gen_and_prove(ctx, GEN, ["Props", "PropsAsm", "PropsSbg"], "C07")
+    proved = gen_and_prove(ctx, GEN, ["Props", "PropsAsm", "PropsSbg", "PropsGraph"], "C07")
+    graph_correspondence(ctx)
+    float_shadow(ctx, rows_quick=8)
     kernel_differential(ctx, wide=not proved)
     api_differential(ctx, wide=not proved)
 
@@ -77,6 +83,50 @@ def gen_and_prove(ctx, gen_entries, props_files, sub):
         del ctx.obligations[n_obl:]
         del ctx.brokens[n_brk:]
     return proved
+
+
+def float_shadow(ctx, rows_quick=18):
+    """translator validation: the extracted expression trees over PrimFloat, evaluated in Coq, must reproduce numpy bit for bit"""
+    from harness import kshadow
+    rounds, rows = (1, rows_quick) if ctx.quick else (8, 120)
+    n_tot = n_bad = 0
+    for r in range(rounds):
+        try:
+            text, index = kshadow.shadow_cases(ctx.rng, rows)
+        except Exception as e:
+            ctx.broken("translator", "float shadow generation", repr(e))
+            return
+        trip, out = ctx.coq_counts(text, "shadow_%d" % r)
+        if not trip:
+            ctx.broken("translator", "float shadow does not evaluate", out[-600:])
+            return
+        n, m, first = trip[0]
+        n_tot += n
+        n_bad += m
+        if m:
+            k, o, row, kind = index[first]
+            ctx.broken("translator", "float shadow: Coq evaluation of the translated %s.%s differs from numpy (row kind %s; "
+                                     "%d of %d cases)" % (k, o, kind, m, n), "")
+    ctx.corr("float shadow: translated kernel over PrimFloat (vm_compute) == numpy, bit-exact "
+             "(hydraulic kernels and derived values of both engines, numba medium pressure and gas post-processing; all outputs)", n_tot, n_bad)
+
+
+
+def graph_correspondence(ctx):
+    """graph part of the thermal kernels (nodes_flow, infeed): C07/ModelGraph.v against both real kernels, exact, inside Coq"""
+    from harness import c07_kernels as CK
+    n, chunk = (300, 300) if ctx.quick else (6000, 500)
+    tot = bad = 0
+    for c in range(0, n, chunk):
+        trip, out = ctx.coq_counts(CK.graph_cases(ctx.rng, chunk), "graph_%d" % (c // chunk))
+        if not trip:
+            ctx.broken("correspondence", "C07.ModelGraph vs derivatives_thermal_np/_numba (coqc failed)", out[-600:])
+            return
+        tot += trip[0][0]
+        bad += trip[0][1]
+    ctx.corr("C07.ModelGraph (np_/nb_ infeed, nodes_flow) == derivatives_thermal_np / _numba on generated branch lists", tot, bad)
+    if bad:
+        ctx.broken("correspondence", "graph model of the thermal kernels disagrees with the implementation", "%d of %d" % (bad, tot))
 
 
 # ------------------------------------------------------------------------------------------------ kernel level
